@@ -268,7 +268,7 @@ def main():
                    "D49": ("C01", "render_loading_frame|index:FrameHeader.lf_level"), "D50": ("C17", "D50"), "D51": ("C01", "suggested_hdr_tf<-jxl_render::RenderContext::embedded_icc"), "D52": ("C01", "parse_icc_raw|arith:tag_count"), "D53": ("C03", "fast-path-ignores-nb_deltas"),
                    "D54": ("C01", "D54"), "D55": ("C01", "D55"), "D56": ("C01", "D56"),
                    "D57": ("C11", "D57"), "D58": ("C10", "D58"), "D59": ("C01", "render_loading_frame_cropped<-jxl_render::RenderContext::frame"), "D60": ("C11", "D60"),
-                   "D62": ("C18", "tag list ends with the command stream")}
+                   "D62": ("C18", "tag list ends with the command stream"), "D63": ("C17", "D63")}
         for d, (prop, key) in sorted(REVERTS.items()):
             if os.path.exists(os.path.join(V, "mutants", "reverts", "revert_%s.patch" % d)):
                 idx.append({"name": "reverts/revert_%s" % d, "property": prop, "expect": key})
